@@ -53,6 +53,7 @@ func Run(o *drv.Out) {
 	for ci := 0; ci < nCases; ci++ {
 		failedTxCase(o, ci, nHeights)
 	}
+	slashThenFailCase(o)
 	nRej := 3
 	if o.Tier == "thorough" || o.Search {
 		nRej = 8
@@ -296,6 +297,193 @@ func failedTxCase(o *drv.Out, ci, nHeights int) {
 			c.Restart(A)
 		}
 	}
+}
+
+// slashThenFailCase: a transaction that changes the in-memory slash tracker and THEN fails.
+//
+// Root chain with protocol version 2 (committee-scoped slashing, per-block slash tracker), four
+// validators staked for committees 1 and 2, non-sign slash 10 %, per-block cap 15 %. An earlier block
+// carries double-sign evidence against validator 0 (so that evidence is indexed). The block at
+// height 5 (end of a non-sign window) is proposed from, in this order:
+//
+//	a1      certificateResults of chain 2 (nested height 2) that validator 3 did not sign
+//	        -> its non-sign counter for chain 2 is 1 > MaxNonSign (0 here); nothing is slashed yet
+//	tx1     certificateResults (nested height 3) with the STALE evidence: the window settlement slashes
+//	        validator 3 (tracker entry, stake, pause), then HandleDoubleSigners rejects -> tx1 FAILS
+//	tx2     the same certificate without the evidence: succeeds and settles the window for real
+//
+// The block must equal the block built from a1, tx2 alone: validator 3 slashed 10 %, still a
+// member of committee 2. If tx1's tracker entry survives its failure, tx2 slashes only the 5 % left
+// under the cap and ejects the validator from the committee.
+func slashThenFailCase(o *drv.Out) {
+	o.Case("failing-after-slash-certificate-results")
+	rng := rand.New(rand.NewSource(48))
+	const nested = node.ChainId + 1
+	opts := node.Options{MutateGenesis: func(g *fsm.GenesisState) {
+		g.Params.Consensus.ProtocolVersion = fsm.NewProtocolVersion(0, 2)
+		g.Params.Validator.NonSignSlashPercentage = 10
+		g.Params.Validator.MaxNonSign = 0 // one missed certificate in a window is slashed at its end
+		for _, v := range g.Validators {
+			v.Committees = []uint64{node.ChainId, nested}
+		}
+		g.Pools = append(g.Pools, &fsm.Pool{Id: nested, Amount: 1})
+	}}
+	net := node.NewNetwork(21, 4, nil, 12, opts)
+	defer net.Close()
+	c := execdrv.NewChain(o, net, rng, []int{16, 2})
+	c.CanonErrors = true
+	A, A2, B := c.NewNode("A", 0), c.NewNode("A2", 0), c.NewNode("B", 1)
+	rewards := func() *lib.RewardRecipients {
+		return &lib.RewardRecipients{PaymentPercents: []*lib.PaymentPercents{{Address: net.FreshAddr(1), Percent: 100, ChainId: nested}}}
+	}
+	evidence := &lib.SlashRecipients{DoubleSigners: []*lib.DoubleSigner{{Id: net.ValKeys[0].PublicKey().Bytes(), Heights: []uint64{1}}}}
+	stake3 := func(nd *node.Node) (uint64, []uint64) {
+		v, err := nd.C.FSM.GetValidator(crypto.NewAddress(node.Addr(net.ValKeys[3])))
+		if err != nil || v == nil {
+			return 0, nil
+		}
+		return v.StakedAmount, v.Committees
+	}
+	// one height on every node: A proposes from txs, everybody commits A's block
+	all := func(txs [][]byte) *execdrv.Proposal {
+		for _, tx := range txs {
+			if err := A.Submit(tx); err != nil {
+				panic(err)
+			}
+		}
+		h := A.Height()
+		pre := A.StateDigest()
+		p, ok := c.Propose(A, nil, "produce")
+		if !ok {
+			return nil
+		}
+		c.Hold = true
+		okA := c.Validate(A, p)
+		if okA {
+			c.Commit(A, p, false)
+		}
+		o.Op(fmt.Sprintf("def %d %s %s %s %s", h, pre, p.ID, A.StateDigest(), p.Obs), "def")
+		c.Release()
+		if !okA {
+			return nil
+		}
+		c.Commit(A2, p, false)
+		c.Validate(B, p)
+		c.Commit(B, p, false)
+		return p
+	}
+	for A.Height() < 5 {
+		h := A.Height()
+		txs := [][]byte{net.SendTx(net.AcctKeys[0], net.FreshAddr(int(h)+100), 1000, minFee, h, "")}
+		if h == 3 {
+			// the evidence is processed (validator 0 slashed for chain 2) and indexed here
+			txs = append(txs, net.CertificateResultsTx(A, nested, 1, h-1, 0, []int{0, 1, 2, 3},
+				&lib.CertificateResult{RewardRecipients: rewards(), SlashRecipients: evidence}, h))
+		}
+		p := all(txs)
+		if p == nil || (h == 3 && p.NTx != 2) {
+			o.Fail("C07:harness:slash-scenario-not-reached", fmt.Sprintf("prefix height %d did not include what it should", h), map[string]any{"case": o.CurCase()})
+			return
+		}
+	}
+	before, _ := stake3(A)
+	h := A.Height()
+	// NOTE: every settlement at a window end (the own chain's in BeginBlock, and each certificateResults
+	// transaction's) deletes ALL non-signer records, so a counter can only be seen by the settlement of the
+	// very next transaction: a1 records the miss, tx1 / tx2 settle it (MaxNonSign = 0).
+	txs := [][]byte{net.CertificateResultsTx(A, nested, 2, h-1, 0, []int{0, 1, 2}, &lib.CertificateResult{RewardRecipients: rewards()}, h)}
+	tx1 := net.CertificateResultsTx(A, nested, 3, h-1, 0, []int{0, 1, 2}, &lib.CertificateResult{RewardRecipients: rewards(), SlashRecipients: evidence}, h)
+	tx2 := net.CertificateResultsTx(A, nested, 3, h-1, 0, []int{0, 1, 2}, &lib.CertificateResult{RewardRecipients: rewards()}, h)
+	txs = append(txs, tx1, tx2)
+	for _, tx := range txs {
+		if err := A.Submit(tx); err != nil {
+			panic(err)
+		}
+	}
+	pre := A.StateDigest()
+	p, ok := c.Propose(A, nil, "produce")
+	if !ok {
+		return
+	}
+	blk := cloneBlock(p.Block)
+	has := func(tx []byte) bool {
+		for _, t := range blk.Transactions {
+			if bytes.Equal(t, tx) {
+				return true
+			}
+		}
+		return false
+	}
+	if len(blk.Transactions) != 2 || has(tx1) || !has(tx2) {
+		o.Fail("C07:harness:slash-scenario-not-reached", fmt.Sprintf("height %d: expected a1 and tx2 included and tx1 failing; block has %d txs, tx1 included=%v, tx2 included=%v", h, len(blk.Transactions), has(tx1), has(tx2)),
+			map[string]any{"case": o.CurCase()})
+		return
+	}
+	c.Hold = true
+	okA := c.Validate(A, p)
+	if okA {
+		c.Commit(A, p, false)
+	}
+	o.Op(fmt.Sprintf("def %d %s %s %s %s", h, pre, p.ID, A.StateDigest(), p.Obs), "def")
+	c.Release()
+	okB := okA && c.Validate(B, p)
+	// the block alone
+	for _, tx := range blk.Transactions {
+		if err := A2.Submit(tx); err != nil {
+			panic(err)
+		}
+	}
+	pre2 := A2.StateDigest()
+	p2, ok2 := c.Propose(A2, nil, "produce")
+	if !ok2 {
+		return
+	}
+	blk2 := cloneBlock(p2.Block)
+	c.Hold = true
+	if c.Validate(A2, p2) {
+		c.Commit(A2, p2, false)
+	}
+	o.Op(fmt.Sprintf("def %d %s %s %s %s", h, pre2, p2.ID, A2.StateDigest(), p2.Obs), "def")
+	c.Release()
+	sWith, cWith := stake3(A)
+	sAlone, cAlone := stake3(A2)
+	var diff []string
+	if !okA || !okB {
+		diff = append(diff, fmt.Sprintf("the block is rejected (proposer accepts: %v, replica accepts: %v)", okA, okB))
+	}
+	if !bytes.Equal(blk.BlockHeader.StateRoot, blk2.BlockHeader.StateRoot) {
+		diff = append(diff, "state root")
+	}
+	if !bytes.Equal(blk.BlockHeader.TransactionRoot, blk2.BlockHeader.TransactionRoot) {
+		diff = append(diff, "transaction root")
+	}
+	if !bytes.Equal(blk.BlockHeader.NextValidatorRoot, blk2.BlockHeader.NextValidatorRoot) {
+		diff = append(diff, "validator root")
+	}
+	if sWith != sAlone || fmt.Sprint(cWith) != fmt.Sprint(cAlone) {
+		diff = append(diff, fmt.Sprintf("slashed validator: stake %d committees %v next to the failing transaction, stake %d committees %v alone (before the block: %d)", sWith, cWith, sAlone, cAlone, before))
+	}
+	if d := node.DiffDumps(A.StateDump(), A2.StateDump()); okA && len(d) != 0 {
+		diff = append(diff, fmt.Sprintf("full state scan (%d keys, first: %s)", len(d), d[0]))
+	}
+	if strings.Join(A.BlockEvents(h), ",") != strings.Join(A2.BlockEvents(h), ",") && okA {
+		diff = append(diff, "events")
+	}
+	o.Count("metamorphic-compared")
+	o.Count(fmt.Sprintf("slash-then-fail:validator3-stake:%d->%d", before, sAlone))
+	if len(diff) != 0 {
+		o.Fail("C07:failed-tx-left-trace",
+			fmt.Sprintf("height %d: a certificateResults transaction that slashes a non-signer and then fails on stale double-sign evidence leaves a trace: the block built next to it differs from the block of its successful transactions alone in: %s", h, strings.Join(diff, "; ")),
+			map[string]any{"case": o.CurCase(), "height": h, "failing_tx": hex.EncodeToString(tx1), "successful_tx": hex.EncodeToString(tx2),
+				"block_next_to_failing_tx": hex.EncodeToString(p.Block), "block_alone": hex.EncodeToString(p2.Block)})
+		return
+	}
+	if sAlone >= before {
+		o.Fail("C07:harness:slash-scenario-not-reached", fmt.Sprintf("validator 3 was not slashed by the window settlement (stake %d -> %d)", before, sAlone), map[string]any{"case": o.CurCase()})
+		return
+	}
+	o.Nontrivial(o.CurCase())
+	o.Sample(fmt.Sprintf("%s: tx1 slashes validator 3 and then fails; block == block without it: validator 3 stake %d -> %d, committees %v", o.CurCase(), before, sAlone, cAlone))
 }
 
 func position(i, n int) string {
